@@ -35,6 +35,13 @@ fn values<F: Flt>(l: &Layout, max: usize) -> Vec<Parts<F>> {
         out.push(Parts { vals: vals.clone(), present: vec![true; g] });
         out.push(Parts { vals, present: vec![false; g] });
     }
+    // non-finite real parts and a non-finite entry in a present part (they convert like any value)
+    for re in [f64::NAN, f64::INFINITY, f64::NEG_INFINITY] {
+        let vals: Vec<F> = (0..l.nslots()).map(|i| F::from64(if i == 0 { re } else { VALS[1 + i % 5] })).collect();
+        out.push(Parts { vals, present: vec![true; g] });
+        let vals: Vec<F> = (0..l.nslots()).map(|i| F::from64(if i == 1 { re } else { VALS[1 + i % 5] })).collect();
+        out.push(Parts { vals, present: vec![true; g] });
+    }
     for pat in 0..(1usize << g) {
         let present: Vec<bool> = (0..g).map(|i| pat & (1 << i) == 0).collect();
         for shift in 0..VALS.len() {
@@ -197,7 +204,7 @@ macro_rules! float_lift {
         let d: Dims = $d;
         let l = <D as Subject<F>>::layout(d);
         let name = format!("{} <-> {}", stringify!($fl), l.type_name);
-        for &v in &[0.0 as $fl, -0.0, 1.5, -2.25, 1.0 / 3.0, 1e-30, 1e30] {
+        for &v in &[0.0 as $fl, -0.0, 1.5, -2.25, 1.0 / 3.0, 1e-30, 1e30, <$fl>::INFINITY, <$fl>::NEG_INFINITY, <$fl>::MAX] {
             $st.evaluations += 3;
             let x: D = <D as SupersetOf<$fl>>::from_subset(&v);
             let p = <D as Subject<F>>::parts(&x, d);
